@@ -451,8 +451,9 @@ def _solve(job, fallbacks=True):
         # portfolio on the same SMT-LIB text: z3's default configuration with a short budget, then E-matching only (no auto
         # configuration, no model-based instantiation: the obligations carry explicit triggers), then the default with another seed
         res, reason, back = 'unknown', '', 'z3-api'
-        for label, opts, tmo in (('z3-api', {}, min(timeout, PRIMARY_MS)),
-                                 ('z3-api[ematching]', {'auto_config': False, 'smt.mbqi': False}, min(timeout, 2 * PRIMARY_MS)),
+        scale = max(1, timeout // TIMEOUT_MS)
+        for label, opts, tmo in (('z3-api', {}, min(timeout, scale * PRIMARY_MS)),
+                                 ('z3-api[ematching]', {'auto_config': False, 'smt.mbqi': False}, min(timeout, 2 * scale * PRIMARY_MS)),
                                  ('z3-api[seed]', {'smt.random_seed': 7}, timeout)):
             s = z3.SolverFor('ALL') if False else Solver()
             for k, v in opts.items():
@@ -467,7 +468,7 @@ def _solve(job, fallbacks=True):
                 break
         if res != 'unsat' and fallbacks:
             # fall-backs: cvc5 and the z3 CLI (different version) on the same SMT-LIB text
-            fb = min(timeout, FALLBACK_MS)
+            fb = min(timeout, max(1, timeout // TIMEOUT_MS) * FALLBACK_MS)
             for tool, cmd in (('cvc5', ['/usr/bin/cvc5', '--lang=smt2', f'--tlimit={fb}', '--full-saturate-quant']),
                               ('z3-4.8-cli', ['/usr/bin/z3', '-smt2', f'-T:{max(1, fb // 1000)}', '-in'])):
                 try:
@@ -721,7 +722,8 @@ def run_property(pid, proof_cfg, tier, seed):
     CA.install()
     targets = list(CA.TARGETS.get(pid, []))
     t0 = time.time()
-    results = verify_targets(targets)
+    # thorough tier: three times the solver budget per part (fewer undecided obligations on a loaded machine)
+    results = verify_targets(targets, timeout=TIMEOUT_MS * (3 if tier == 'thorough' else 1))
     base = load_baseline()
     fails, crashes, undecided, samples = [], [], [], []
     n_obl = n_dis = 0
